@@ -47,6 +47,7 @@ type Step struct {
 	Draw    *Drawing `json:"draw,omitempty"`
 	Format  string   `json:"format,omitempty"`
 	Opt     int      `json:"opt,omitempty"`
+	Repeat  bool     `json:"repeat,omitempty"`  // render: render the same canvas object a second time, the output must be identical
 	FailAt  int      `json:"fail_at,omitempty"` // render: the sink returns an error from the k-th Write on (0 = never)
 }
 
@@ -111,6 +112,9 @@ type Result struct {
 	Hash  uint64 `json:"hash"`
 	Brief string `json:"brief"`
 	Fault bool   `json:"fault,omitempty"` // an injected sink error fired during this call
+	// RepeatDiff is set when the call was asked to repeat itself on the very same input objects and
+	// the second output differed from the first ("repeated calls with the same inputs ...").
+	RepeatDiff string `json:"repeat_diff,omitempty"`
 }
 
 func (r Result) Equal(o Result) bool { return r.Kind == o.Kind && r.Hash == o.Hash }
@@ -149,6 +153,7 @@ type RunReport struct {
 	Nontrivial    bool         `json:"nontrivial"`
 	SinkFaults    int          `json:"sink_faults,omitempty"`
 	DetChecked    int          `json:"det_checked,omitempty"` // calls re-run alone under a second map order
+	RepeatChecked int          `json:"repeat_checked,omitempty"`
 	LinOps        int          `json:"lin_ops,omitempty"`
 	LinConcurrent int          `json:"lin_concurrent_pairs,omitempty"`
 }
